@@ -52,8 +52,7 @@ THEOREMS = [NS + t for t in (
     'C05_repeat', 'C05_repeat_value', 'C05_repeat_later', 'C05_repeat_path',
     'C05_path_coherence', 'C05_path_order', 'C05_path_outputs', 'C05_range_elem', 'C05_range_value',
     'C05_trim_shapes', 'C05_trim_elem',
-    'C05_unbounded_cells', 'C05_clip_is_inter_cols_partial', 'C05_clip_is_inter_rows_partial',
-    'C05_clip_inter_counterexample', 'C05_unbounded_elem', 'C05_list', 'C05_sheetless_cell', 'C05_sheetless_range',
+    'C05_unbounded_cells', 'C05_clip_is_inter_cols', 'C05_clip_is_inter_rows', 'C05_unbounded_elem', 'C05_list', 'C05_sheetless_cell', 'C05_sheetless_range',
     'C05_inst_hyps', 'C05_inst_path_coherence')]
 DESIGN_REF = 'DESIGN.md §7 C05'
 RULE = ('deterministic core: ALL permutations of the first-evaluation order of fixed workbooks of 4-6 cells (ranges, a '
@@ -72,8 +71,8 @@ ASSUMPTIONS = [
     'non-iterative mode; acyclic workbooks; formula language of the C01 correspondence (=ref, &, +, SUM, COUNT, INDEX)',
     'range paths are evaluated inside the grid of cells that exist in the workbook; single blank cells beyond the used '
     'area are read too (30% of the random workbooks)',
-    'the row edge (used area reaching row 1048576) is not executed on the real code (a million cells); the column '
-    'edge (XFD) is',
+    'the row edge (used area reaching row 1048576) is executed in full (a million cells) once, in the thorough tier; '
+    'the quick tier runs its clipping step (address & used area) and the XFD column edge in full',
     'CSE array workbooks are compared by the implementation-only order oracle (fresh compiler per address); the Lean '
     'engine model has no CSE arrays, so there is no model output for that family',
     'nested lists of addresses are not generated (the code maps recursively; the model has flat lists)',
@@ -92,6 +91,7 @@ _FRESH_MEMO = {}
 _ORACLE = {}          # case key -> list of (op index, text) failures found while running impl
 _FILES = {}
 MAX_COL = 16384
+MAX_ROW = 1048576
 
 SHEETS = ['Sheet1', 'Data 2']
 
@@ -445,19 +445,30 @@ def impl(case):
 
 
 def impl_clip(case):
-    """the trimmed shape of `evaluate(unbounded)` on a sheet whose used area is (1,1,mc,mr)"""
+    """the trimmed shape of `evaluate(unbounded)` on a sheet whose used area is (1,1,mc,mr); with level 'addr' only the
+    clipping step of ExcelOpxWrapper.get_range (`address & used area`) is run (the row-1048576 edge in the quick tier)"""
     c1, r1, c2, r2 = case['u']
     mc, mr = case['mc'], case['mr']
+    if case.get('level') == 'addr':
+        from pycel.excelutil import AddressRange
+        a = AddressRange('Sheet1!' + unbounded_coord(c1, r1, c2, r2)) & AddressRange((1, 1, mc, mr), sheet='Sheet1')
+        if isinstance(a, str):
+            raise ValueError(a)
+        h, w = a.size
+        return 'sc' if (h, w) == (1, 1) else f'v:{h * w}' if 1 in (h, w) else f'g:{h}:{w}'
     cells = {cell_addr('Sheet1', mc, mr): 7}
     if (mc, mr) != (1, 1):
         cells['Sheet1!A1'] = 1
     comp = pyc.compiler_from(cells)
     v = comp.evaluate('Sheet1!' + unbounded_coord(c1, r1, c2, r2))
-    if isinstance(v, tuple) and v and isinstance(v[0], tuple):
-        return f'g:{len(v)}:{len(v[0])}'
-    if isinstance(v, tuple):
-        return f'v:{len(v)}'
-    return 'sc'
+    last = v
+    while isinstance(last, tuple):
+        last = last[-1]
+    if case.get('last') and last != 7:
+        return f'!last-cell-missing:{core.enc(last)}'
+    shape = _shape(v)
+    del v, comp
+    return shape
 
 
 def clip_shape(case):
@@ -809,12 +820,7 @@ def _first_diff(a, b):
 
 
 def finding_key(case, impl_out, model_out):
-    """unbounded.maxedge: a whole-row address on a used area that reaches the last column (XFD) loses that column.
-    Only the clip family builds such a sheet; every other disagreement is a new violation."""
-    if case.get('kind') == 'clip':
-        c1, r1, c2, r2 = case['u']
-        if clip(case['u'], case['mc'], case['mr']) is not None and r1 != 0 and case['mc'] == MAX_COL:
-            return 'unbounded.maxedge'
+    """no known finding class is left for C05: every disagreement is a violation"""
     return None
 
 
@@ -1015,9 +1021,26 @@ def clip_cases(tier):
                 for b in range(a, hi + 2):
                     yield {'kind': 'clip', 'u': [a, 0, b, 0], 'mc': mc, 'mr': mr}
                     yield {'kind': 'clip', 'u': [0, a, 0, b], 'mc': mc, 'mr': mr}
+    # the edges of the sheet: the last column XFD (executed in full) and the last row 1048576 (the clipping step in
+    # both tiers, the full evaluation of a million cells once in the thorough tier: `edge_cases`)
     yield {'kind': 'clip', 'u': [0, 1, 0, 1], 'mc': MAX_COL, 'mr': 2}
-    yield {'kind': 'clip', 'u': [MAX_COL, 0, MAX_COL, 0], 'mc': MAX_COL, 'mr': 2}
-    yield {'kind': 'clip', 'u': [0, 2, 0, 2], 'mc': MAX_COL - 1, 'mr': 2}
+    yield {'kind': 'clip', 'u': [0, 2, 0, 2], 'mc': MAX_COL, 'mr': 2, 'last': 1}
+    yield {'kind': 'clip', 'u': [0, 1, 0, 2], 'mc': MAX_COL, 'mr': 2, 'last': 1}
+    yield {'kind': 'clip', 'u': [MAX_COL, 0, MAX_COL, 0], 'mc': MAX_COL, 'mr': 2, 'last': 1}
+    yield {'kind': 'clip', 'u': [MAX_COL - 1, 0, MAX_COL, 0], 'mc': MAX_COL, 'mr': 2, 'last': 1}
+    yield {'kind': 'clip', 'u': [0, 2, 0, 2], 'mc': MAX_COL - 1, 'mr': 2, 'last': 1}
+    for u in ([1, 0, 1, 0], [2, 0, 2, 0], [1, 0, 2, 0], [0, MAX_ROW, 0, MAX_ROW], [0, MAX_ROW - 1, 0, MAX_ROW]):
+        yield {'kind': 'clip', 'u': u, 'mc': 2, 'mr': MAX_ROW, 'level': 'addr'}
+        yield {'kind': 'clip', 'u': u, 'mc': 2, 'mr': MAX_ROW - 1, 'level': 'addr'}
+    for u in ([0, 1, 0, 1], [0, 1, 0, 2], [MAX_COL, 0, MAX_COL, 0]):
+        yield {'kind': 'clip', 'u': u, 'mc': MAX_COL, 'mr': 2, 'level': 'addr'}
+    yield {'kind': 'clip', 'u': [0, MAX_ROW, 0, MAX_ROW], 'mc': 2, 'mr': MAX_ROW, 'last': 1}     # 2 cells: cheap
+
+
+def edge_cases(tier):
+    """whole column B on a sheet that uses row 1048576: a million cells through the real compiler (~30 s, 1.5 GB)"""
+    if tier == 'thorough':
+        yield {'kind': 'clip', 'u': [2, 0, 2, 0], 'mc': 2, 'mr': MAX_ROW, 'last': 1}
 
 
 # ---------------------------------------------------------------------------------------------------------------
@@ -1211,3 +1234,4 @@ def cases(tier, rng):
     yield from absent_cases(tier)
     yield from perm_cases(tier, rng)
     yield from rand_cases(tier, rng)
+    yield from edge_cases(tier)
